@@ -71,7 +71,7 @@ def run(tier, seed, only=None):
         root = ny - 1 if symm else (ny - 1) // 2
         semispan = m[0, root, 1] - m[0, 0, 1]  # y_root - y_tip(left)
         assume = massume + rap_assume
-        fixed = {"ref_axis_pos": 0.25}
+        fixed = {"ref_axis_pos": 0.25, "sweep": (20.0, -20.0), "dihedral": (10.0, -10.0)}
 
         def mk(cls, **kw):
             sc = comp(cls, **kw)
